@@ -187,6 +187,11 @@ Theorem C08_print_dec_roundtrip : forall z, read_dec (print_dec z) = Some z.
 Proof. exact print_dec_roundtrip. Qed.
 Print Assumptions C08_print_dec_roundtrip.
 
+(* the grouped numerals of the `loc` cases are the plain numerals with separators inserted *)
+Theorem C08_group3_ungroup : forall digits, filter not_sep (group3 digits) = filter not_sep digits.
+Proof. exact group3_ungroup. Qed.
+Print Assumptions C08_group3_ungroup.
+
 (* non-vacuity: concrete instances *)
 Module Examples.
 Import Strings.String.
@@ -220,6 +225,9 @@ Proof. reflexivity. Qed.
 Example C08_ex_stream_ok : stream_chain {| content := B "pre:"; width := 6; fill := x2a; adjust_left := true |}
     (B "<{}>") [Pct (AInt 1)] (B "!") = (B "pre:<1>***!", true).
 Proof. reflexivity. Qed.
+Example C08_ex_grouped : render_loc (AInt (-1234567)) = B "-1,234,567" /\ render_loc (AInt 999) = B "999"
+  /\ render_loc (AHalf 1234) = B "1,234;5" /\ render_loc (ADbl 100000) = B "100,000" /\ render_loc (AHalf (-1)) = B "-0;5".
+Proof. repeat split; reflexivity. Qed.
 Example C08_ex_print_dec : print_dec 0 = B "0" /\ print_dec (-9223372036854775808) = B "-9223372036854775808".
 Proof. split; reflexivity. Qed.
 End Examples.
